@@ -304,7 +304,6 @@ func VerifC12UpdateERC20Collision() {
 		old, nw = nw, old
 	}
 	rt.Reach("collision-attempted")
-	rt.Known("H13-update-erc20-to-an-address-of-another-pair", true)
 	r.probeAndAct("update-erc20", func() bool { _, err := r.k.UpdateTokenPairERC20(r.ctx, old, nw); return err == nil })
 }
 
